@@ -2,25 +2,53 @@
 import Iota.Gen.Merkle
 import Iota.Tie.Expect
 import Iota.Proofs.Vectors.Hash
+import Iota.Tie.MerkleCode
 
 namespace Iota.Tie.C15
 open Iota
+open Iota.Tie.Bech32Code (bv)
 
 theorem prefixes : Gen.Merkle.leafHashPrefix = 0 ∧ Gen.Merkle.nodeHashPrefix = 1 := by decide
-
-/-- the model (Iota/Model/Merkle.lean) was written from exactly this code -/
-theorem src :
-    Gen.Merkle.src_merkle_Hasher_EmptyRoot = Expect.Merkle_src_merkle_Hasher_EmptyRoot ∧
-    Gen.Merkle.src_merkle_Hasher_Hash = Expect.Merkle_src_merkle_Hasher_Hash ∧
-    Gen.Merkle.src_merkle_Hasher_hashLeaf = Expect.Merkle_src_merkle_Hasher_hashLeaf ∧
-    Gen.Merkle.src_merkle_Hasher_hashNode = Expect.Merkle_src_merkle_Hasher_hashNode ∧
-    Gen.Merkle.src_merkle_largestPowerOfTwo = Expect.Merkle_src_merkle_largestPowerOfTwo :=
-  ⟨rfl, rfl, rfl, rfl, rfl⟩
 
 /-- everything else the package declares (imports, constants, types, variables, build constraints and the functions not
 pinned one by one) is unchanged too: no declaration of the modelled packages can change without a tie theorem failing. -/
 theorem rest :
     Gen.Merkle.rest_merkle = Expect.Merkle_rest_merkle :=
   rfl
+
+/-! ### the functions, translated as code (`Gen.Merkle.code.*`), equal the model for all inputs
+Proofs: `Iota/Tie/MerkleCode.lean` (also `hashNode_eq`, `hashLeaf_eq`, `EmptyRoot_eq`, `bitsLen64_eq`, `Hash_fuel_irrelevant`).
+`hash_sum` is the hash function of the `Hasher` as the translation sees it (bytes written ↦ digest); `H` is the same function
+on the model's bytes (`hH`; `MerkleCode.exists_H`: every `hash_sum` has such an `H`).  A leaf is the pair `(bytes, error)` its
+`MarshalBinary` returns; `MerkleCode.decLeaf` reads it as the model's `.ok bytes` / `.error e`. -/
+
+/-- **The Go function `largestPowerOfTwo`, translated statement by statement, returns for every `int` `n ≥ 2` the value the
+model uses as split point, `1 << ((bits.Len(n-1) - 1) & 63)`, and panics exactly for the `int`s `x ≤ 1`.** -/
+theorem code_largestPowerOfTwo :
+    (∀ n : Nat, 2 ≤ n → n < 2 ^ 63 →
+      Gen.Merkle.code.largestPowerOfTwo (BitVec.ofNat 64 n) = some (BitVec.ofNat 64 (Merkle.largestPowerOfTwo n))) ∧
+    (∀ x : BitVec 64, Gen.Merkle.code.largestPowerOfTwo x = none ↔ x.toInt ≤ 1) :=
+  ⟨MerkleCode.largestPowerOfTwo_eq, MerkleCode.largestPowerOfTwo_none_iff⟩
+
+/-- **The Go method `Hasher.Hash`, translated statement by statement (recursion included), computes exactly the model's
+`Merkle.hash` — the function C15 is proved about — for every hash function, every list of fewer than 2^63 leaves and every
+amount of fuel that is at least 1 and at least the number of leaves: it returns `(root, nil)` where the model returns the
+root and `(nil, err)` where the model returns the first marshaling error.** -/
+theorem code_hash (hash_sum : List (BitVec 8) → List (BitVec 8)) (H : Merkle.Bytes → Merkle.Bytes)
+    (hH : ∀ x, hash_sum (bv x) = bv (H x)) (fuel : Nat) (data : List (List (BitVec 8) × Option String))
+    (h63 : data.length < 2 ^ 63) (hf : data.length ≤ fuel) (hf0 : 0 < fuel) :
+    Gen.Merkle.code.Hasher_Hash hash_sum fuel data =
+      some (match Merkle.hash H (data.map MerkleCode.decLeaf) with
+        | .ok r => (bv r, none)
+        | .error e => ([], some e)) :=
+  MerkleCode.Hash_eq hash_sum H hH fuel data h63 hf hf0
+
+/-- **`Hasher.Hash` never panics: for no hash function and no list of leaves does it reach the `panic` of
+`largestPowerOfTwo` or slice out of bounds (and `len(data)` levels of recursion, at least one, are enough).** -/
+theorem code_hash_never_panics (hash_sum : List (BitVec 8) → List (BitVec 8)) (fuel : Nat)
+    (data : List (List (BitVec 8) × Option String)) (h63 : data.length < 2 ^ 63)
+    (hf : data.length ≤ fuel) (hf0 : 0 < fuel) :
+    Gen.Merkle.code.Hasher_Hash hash_sum fuel data ≠ none :=
+  MerkleCode.Hash_never_panics hash_sum fuel data h63 hf hf0
 
 end Iota.Tie.C15
